@@ -108,6 +108,8 @@ fn kind_of(name: &str) -> io::ErrorKind {
     match name {
         "eof" => io::ErrorKind::UnexpectedEof,
         "denied" => io::ErrorKind::PermissionDenied,
+        "timeout" => io::ErrorKind::TimedOut,
+        "wouldblock" => io::ErrorKind::WouldBlock,
         _ => io::ErrorKind::Other,
     }
 }
